@@ -531,6 +531,99 @@ def _handlerfields_rule(chk, prog, types):
     chk.floor(rule, 80, n)
 
 
+def _negzero_rule(chk, prog):
+    """The compiler replaces small whole numbers by 32-bit integers baked into instructions (LOAD_INTEGER, the
+    *_IMMEDIATE forms).  The usual test "d == (int32_t) d" also holds for -0.0, whose integer image is +0: a program
+    that mentions -0.0 (literally, or as a constant folded into a def) would compute 1/x = +inf where the language
+    says -inf.  Every such shortcut must exclude the negative zero explicitly."""
+    rule = "C02-NEGZERO"
+    chk.rule(rule, "the integer shortcuts for number constants (LOAD_INTEGER, immediates) are taken only for values that are not -0.0")
+    sites = []
+    f1 = next((f for f in prog.all_funcs() if f.name == "janetc_loadconst"), None)
+    f2 = next((f for f in prog.all_funcs() if f.name == "can_be_imm"), None)
+    if f1 is None or f2 is None:
+        raise AnalysisBroken("janetc_loadconst / can_be_imm not found")
+    for x in f1.nodes:
+        if x.k == "call" and x.callee == "janetc_emit" and any(is_ref(y, "JOP_LOAD_INTEGER") for y in x.walk()):
+            sites.append((f1, x))
+    for x in f2.nodes:
+        if x.k == "return" and x.kids and x.kids[0].v == 1:
+            sites.append((f2, x))
+    if len(sites) < 2:
+        raise AnalysisBroken("integer shortcut sites not found (%d)" % len(sites))
+    for fn, site in sites:
+        chk.instance(rule)
+        chk.analysed(fn)
+        IN, T = flow.condition_facts(fn)
+        ok = None
+        for x, S in flow.states_at(fn, IN, T):
+            if x is not site:
+                continue
+            ok = bool(S)
+            for ps in S:
+                good = False
+                for (op, l, r, toks, ln, rn) in ps:
+                    if ln is not None and "signbit" in ln.macro_names() and op == "==" and (rn is None or rn.v == 0):
+                        good = True      # signbit(d) is false
+                    if op == "!=" and rn is not None and rn.v == 0 and ln is not None and is_ref(ln) and "int" in (ln.t or ""):
+                        good = True      # the integer image is not zero
+                if not good:
+                    ok = False
+        if ok:
+            chk.ok(rule, "%s: integer form only for a non-zero integer or a zero without sign bit" % fn.name)
+        else:
+            chk.violation(rule, fn.tu.name, fn.name, "negative-zero", site.loc,
+                          "%s takes the integer shortcut on a path that has excluded neither a zero integer image nor the sign bit: "
+                          "-0.0 is compiled as +0 and (/ 1 -0.0) yields inf instead of -inf" % fn.name)
+
+
+def _destructfast_rule(chk, prog):
+    """(def [a b] [x y]) whose value is dropped is compiled without building the two tuples: pattern position i is bound to
+    the i-th element FORM of the right-hand side.  That is the same program only if every element form is compiled - a
+    right-hand side longer than the pattern still has to run its extra elements for their effects - and only if form
+    positions are value positions, which a (splice ...) element breaks.  The shortcut must be guarded by both."""
+    rule = "C02-DESTRUCTFAST"
+    chk.rule(rule, "the allocation-free destructuring shortcut is taken only when the right-hand side is no longer than the pattern and contains no splice")
+    fn = next((f for f in prog.all_funcs() if f.name == "dohead_destructure"), None)
+    if fn is None:
+        raise AnalysisBroken("dohead_destructure not found")
+    chk.analysed(fn)
+    recs = [c for c in fn.calls("dohead_destructure")]
+    if not recs:
+        raise AnalysisBroken("dohead_destructure: per-element recursion of the shortcut not found")
+    IN, T = flow.condition_facts(fn)
+    flags = {}
+    for x in fn.nodes:
+        if x.k == "vardecl" and x.kids:
+            e = strip_casts(x.kids[0])
+            if e.k == "bin" and e.op in ("<=", ">=", "<", ">") and all(strip_casts(k).k == "mem" and strip_casts(k).field == "len" for k in e.kids):
+                a, b = [strip_casts(k).text() for k in e.kids]
+                rhs_le_lhs = (e.op == "<=" and "rhs" in a and "lhs" in b) or (e.op == ">=" and "lhs" in a and "rhs" in b)
+                flags[x.name] = rhs_le_lhs
+    cleared_on_splice = set()
+    for x in fn.nodes:
+        if x.k == "asg" and x.op == "=" and is_ref(x.kids[0]) and strip_casts(x.kids[1]).v == 0 and x.kids[0].name in flags:
+            for a in x.ancestors():
+                if a.k == "if" and any(y.k == "str" and y.d.get("s") == "splice" for y in a.kids[0].walk()):
+                    cleared_on_splice.add(x.kids[0].name)
+    for x, S in flow.states_at(fn, IN, T):
+        if x not in recs:
+            continue
+        chk.instance(rule)
+        guards = None
+        for ps in S:
+            g = set(l for (op, l, r, _, ln, rn) in ps if op == "!=" and rn is None and l in flags)
+            guards = g if guards is None else guards & g
+        good = [g for g in (guards or ()) if flags.get(g) and g in cleared_on_splice]
+        if good:
+            chk.ok(rule, "dohead_destructure: shortcut under `%s` (rhs no longer than the pattern, cleared for a splice element)" % good[0])
+        else:
+            chk.violation(rule, fn.tu.name, fn.name, "shortcut", x.loc,
+                          "the per-position shortcut of dohead_destructure is not guarded by `rhs.len <= lhs.len` and a splice test: "
+                          "surplus right-hand elements are never compiled (their side effects vanish when the def's value is unused) "
+                          "and a splice element is compiled where it has no meaning")
+
+
 _run_commit_only = run
 
 
@@ -545,5 +638,7 @@ def run(chk):   # noqa
     _wrflag_rule(chk, prog)
     _sloteq_rule(chk, prog)
     _handlerfields_rule(chk, prog, types)
+    _negzero_rule(chk, prog)
+    _destructfast_rule(chk, prog)
     from rules import c02_fields
     c02_fields.run(chk, prog)
